@@ -86,7 +86,7 @@ type Sorts struct {
 	order   []string               // declaration order of generated structs / seq sorts
 	seqs    map[string]string      // seq sort -> elem sort
 	typeIDs map[string]int
-	heapAll bool // pragma: all slices (except E/Val/byte) on the heap (default in int mode)
+	heapAll bool              // pragma: all slices (except E/Val/byte) on the heap (default in int mode)
 	owner   map[string]string // struct sort name -> full path of the Go type it stands for
 }
 
